@@ -265,6 +265,7 @@ def run(fx, tier):
     stream_loss_rules(fx, v, 'C02')
     shutdown_outcome_rule(fx, v, 'C02')
     sentry_rules(fx, v, 'C02')
+    queue_purge_rule(fx, v, 'C02')
     # an unacknowledged exchange is never ended by anybody but its acknowledgement, a re-send or cancel()
     from c04 import waiter_completion_rules
     v.rule('R-OWN', 'who may complete a parked reply handler, and with what')
@@ -443,6 +444,61 @@ def sentry_rules(fx, v, prop='C02', rid='R-DOM'):
                     key=prop + ':R-DOM:%s:on_disconnect-goes-on' % cls, where=f.file)
     if n < 3 and not v.violations:
         raise AnalysisBroken('sentry / any_expired anchors not found (%d)' % n)
+
+
+def queue_purge_rule(fx, v, prop='C02', rid='R-DOM'):
+    """do_write moves the requests it can send out of _write_queue one by one and then purges the queue with remove_if: the
+    predicate selects exactly the moved-from (empty) slots - `req.empty()`, not negated - and write_req::empty() is "no handler".
+    Inverted, every request that was LEFT in the queue (throttled for lack of quota) is erased and never completes.
+    Shared with C05 and C07."""
+    n = 0
+    for f in fx.functions(cls='async_sender', name='do_write'):
+        purge = [(b, i, l, c) for b, i, l, c in f.calls() if callee_name(c) == 'remove_if']
+        if not purge:
+            continue
+        for b, i, l, c in purge:
+            lam = None
+            for a in c.get('args', []):
+                ra = f.resolve(a)
+                for m in Expr.walk(ra if isinstance(ra, dict) else {}):
+                    if m.get('k') == 'lambda':
+                        lam = [g for g in fx.fns if g.tu == f.tu and g.lam and g.d.get('lcls') == m.get('lcls')]
+            ok, why = False, 'predicate lambda not found'
+            for g in lam or []:
+                rets = [x for _, _, _, x in g.elements() if x.get('k') == 'ret']
+                if len(rets) != 1:
+                    continue
+                e = core(origin(g, rets[0].get('e')))
+                neg = False
+                for _ in range(3):
+                    if isinstance(e, dict) and e.get('k') == 'un' and e.get('op') == '!':
+                        e, neg = core(e.get('e')), not neg
+                    elif isinstance(e, dict) and e.get('k') == 'call' and callee_name(e) == 'operator!' and e.get('args'):
+                        e, neg = core(e['args'][0]), not neg
+                    else:
+                        break
+                ok = isinstance(e, dict) and e.get('k') == 'call' and callee_name(e) == 'empty' and callee_cls(e) == 'write_req' and not neg
+                why = 'remove_if erases the slots for which %sreq.%s() holds' % ('NOT ' if neg else '', callee_name(e) if isinstance(e, dict) and e.get('k') == 'call' else '?')
+            n += 1
+            v.saw(f)
+            v.check(ok, rid, 'async_sender::do_write purge [%s]' % f.tu, why, key=prop + ':R-DOM:async_sender:queue-purge', where='%s:%d' % (f.path_file(), l))
+    for f in fx.functions(cls='write_req', name='empty'):
+        rets = [x for _, _, _, x in f.elements() if x.get('k') == 'ret']
+        e = core(origin(f, rets[0].get('e'))) if len(rets) == 1 else None
+        neg = False
+        for _ in range(3):
+            if isinstance(e, dict) and e.get('k') == 'un' and e.get('op') == '!':
+                e, neg = core(e.get('e')), not neg
+            elif isinstance(e, dict) and e.get('k') == 'call' and callee_name(e) == 'operator!' and e.get('args'):
+                e, neg = core(e['args'][0]), not neg
+            else:
+                break
+        ok = neg and isinstance(e, dict) and contains(e, lambda m: m.get('k') == 'mem' and m.get('n') == '_handler')
+        n += 1
+        v.check(ok, rid, 'write_req::empty [%s]' % f.tu, 'a slot is empty iff it holds no handler (!_handler)',
+                key=prop + ':R-DOM:write_req::empty', where=f.file)
+    if n < 2 and not v.violations:
+        raise AnalysisBroken('do_write purge / write_req::empty not found')
 
 
 def raw_io_rule(fx, v, prop='C02', rid='R-VALUES'):
